@@ -174,6 +174,24 @@ pub broadcast proof fn lemma_one_byte(s: Seq<u8>)
 }
 
 // ---- arithmetic lemmas
+// body-independent facts about equivalent formulations of the GNU hash comparison (bit 0 ignored) and of the stop-bit test
+pub proof fn lemma_gnu_bit_forms()
+    ensures
+        forall|a: u32, b: u32| (#[trigger] ((a ^ b) >> 1u32) == 0u32) <==> ((a | 1u32) == (b | 1u32)),
+        forall|x: u32| ((#[trigger] (x % 2u32)) == 1u32) <==> ((x & 1u32) != 0u32),
+        forall|x: u32| ((#[trigger] (x & 1u32)) == 1u32) <==> ((x & 1u32) != 0u32),
+{
+    assert forall|a: u32, b: u32| (#[trigger] ((a ^ b) >> 1u32) == 0u32) <==> ((a | 1u32) == (b | 1u32)) by {
+        assert((((a ^ b) >> 1u32) == 0u32) <==> ((a | 1u32) == (b | 1u32))) by (bit_vector);
+    }
+    assert forall|x: u32| ((#[trigger] (x % 2u32)) == 1u32) <==> ((x & 1u32) != 0u32) by {
+        assert(((x % 2u32) == 1u32) <==> ((x & 1u32) != 0u32)) by (bit_vector);
+    }
+    assert forall|x: u32| ((#[trigger] (x & 1u32)) == 1u32) <==> ((x & 1u32) != 0u32) by {
+        assert(((x & 1u32) == 1u32) <==> ((x & 1u32) != 0u32)) by (bit_vector);
+    }
+}
+
 // body-independent facts about the usual formulations of "round x up to a multiple of a" (so that equivalent rewrites of a padding step verify)
 pub proof fn lemma_pad_form_mod(x: int, a: int)
     requires a > 0, x >= 0
